@@ -174,22 +174,17 @@ Lemma callglobal_has_cachewords : has_cachewords OP_CallGlobal = true.
 Proof. vm_compute. reflexivity. Qed.
 
 Lemma grid_cachewords (f : func) (ip w : N) :
-  verify_body f = VOk -> on_grid (f_code f) ip = true -> nthN (f_code f) ip = Some w ->
+  verify_body f = VOk -> grid (f_code f) ip -> nthN (f_code f) ip = Some w ->
   has_cachewords (w_op w) = true -> ip + 3 <= len (f_code f).
 Proof.
   intros V G Hw HC.
-  destruct (verifier_linear_sound_lemma f V ip w G Hw) as (cs & adv & D & F).
-  unfold decode in D.
-  destruct (from_u8_bound <? w_op w); [discriminate|].
-  destruct (negb (is_discriminant (w_op w))); [discriminate|].
-  unfold has_cachewords in HC.
-  destruct (lookup (w_op w) vtable) as [[cs' adv']|]; [|discriminate].
-  injection D as -> ->.
+  destruct (grid_checked f ip w V G Hw) as (cs & adv & D & F).
+  apply decode_entry in D. unfold has_cachewords in HC. rewrite D in HC.
   exact (checked_cachewords _ _ _ _ F HC).
 Qed.
 
-Lemma cache_words_in_bounds_lemma (f : func) (s : st) (w : N) (a : acc) :
-  verify_body f = VOk -> on_grid (f_code f) (s_ip s) = true -> nthN (f_code f) (s_ip s) = Some w ->
+Lemma cache_words_in_bounds_grid (f : func) (s : st) (w : N) (a : acc) :
+  verify_body f = VOk -> grid (f_code f) (s_ip s) -> nthN (f_code f) (s_ip s) = Some w ->
   s_bclen s = len (f_code f) -> In a (cache_accs s w) -> in_bounds a = true.
 Proof.
   intros V G Hw HL H.
@@ -200,6 +195,11 @@ Proof.
   pose proof (grid_cachewords f _ w V G Hw T2) as B.
   unfold in_bounds, a_idx, a_len. cbn [fst snd]. lia.
 Qed.
+
+Lemma cache_words_in_bounds_lemma (f : func) (s : st) (w : N) (a : acc) :
+  verify_body f = VOk -> on_grid (f_code f) (s_ip s) = true -> nthN (f_code f) (s_ip s) = Some w ->
+  s_bclen s = len (f_code f) -> In a (cache_accs s w) -> in_bounds a = true.
+Proof. intros V G. exact (cache_words_in_bounds_grid f s w a V (on_grid_sound _ _ G)). Qed.
 
 Lemma memN_in (x : N) (l : list N) : memN x l = true -> In x l.
 Proof.
@@ -215,7 +215,7 @@ Lemma may_patch_rd (s : st) (w i n : N) :
 Proof. reflexivity. Qed.
 
 Lemma patch_in_bounds_lemma (f : func) (s : st) (w : N) (i n : N) :
-  verify_body f = VOk -> on_grid (f_code f) (s_ip s) = true -> nthN (f_code f) (s_ip s) = Some w ->
+  verify_body f = VOk -> grid (f_code f) (s_ip s) -> nthN (f_code f) (s_ip s) = Some w ->
   s_bclen s = len (f_code f) ->
   may s w (S_PATCH_WR, i, n) = true \/ may s w (S_PATCH_RD, i, n) = true -> i < n.
 Proof.
@@ -237,7 +237,8 @@ Qed.
 Definition guards_present : bool :=
   fetch_guarded && reg_guarded && callsite_guarded
   && forallb (fun e : N * (bool * bool) => snd (snd e)) const_sites
-  && forallb (fun e : N * (N * bool) => snd (snd e)) upval_sites.
+  && forallb (fun e : N * (N * bool) => snd (snd e)) upval_sites
+  && forallb (fun e : N * (list N * bool) => snd (snd e)) cache_reads.
 
 Lemma guards_present_true : guards_present = true.
 Proof. vm_compute. reflexivity. Qed.
@@ -245,13 +246,13 @@ Proof. vm_compute. reflexivity. Qed.
 Lemma const_site_guarded (op : N) (isimm g : bool) : lookup op const_sites = Some (isimm, g) -> g = true.
 Proof.
   intros L. pose proof guards_present_true as P. unfold guards_present in P.
-  apply andb_true_iff in P as [P _]. apply andb_true_iff in P as [_ P].
+  apply andb_true_iff in P as [P _]. apply andb_true_iff in P as [P _]. apply andb_true_iff in P as [_ P].
   exact (lookup_forallb (fun e : N * (bool * bool) => snd (snd e)) const_sites _ _ P L).
 Qed.
 Lemma upval_site_guarded (op which : N) (g : bool) : lookup op upval_sites = Some (which, g) -> g = true.
 Proof.
   intros L. pose proof guards_present_true as P. unfold guards_present in P.
-  apply andb_true_iff in P as [_ P].
+  apply andb_true_iff in P as [P _]. apply andb_true_iff in P as [_ P].
   exact (lookup_forallb (fun e : N * (N * bool) => snd (snd e)) upval_sites _ _ P L).
 Qed.
 Lemma reg_guard_present : reg_guarded = true.
@@ -260,8 +261,8 @@ Lemma callsite_guard_present : callsite_guarded = true.
 Proof. reflexivity. Qed.
 
 (* ---- the strongest true statement: on the grid and with a sound constants_len, every access is in bounds *)
-Lemma on_grid_in_bounds_lemma (f : func) (s : st) (w : N) (a : acc) :
-  verify_body f = VOk -> on_grid (f_code f) (s_ip s) = true -> nthN (f_code f) (s_ip s) = Some w ->
+Lemma grid_in_bounds_lemma (f : func) (s : st) (w : N) (a : acc) :
+  verify_body f = VOk -> grid (f_code f) (s_ip s) -> nthN (f_code f) (s_ip s) = Some w ->
   s_bclen s = len (f_code f) -> frame_inv s ->
   footprint s w a -> in_bounds a = true.
 Proof.
@@ -269,7 +270,7 @@ Proof.
   - pose proof H as H0. apply must_incl in H as [H Gf].
     apply must_raw_cases in H as [->|[H|[H|H]]].
     + exact (fetch_in_bounds_lemma s w _ H0 eq_refl).
-    + exact (cache_words_in_bounds_lemma f s w a V G Hw HL H).
+    + exact (cache_words_in_bounds_grid f s w a V G Hw HL H).
     + apply const_accs_spec in H as (isimm & g & k & L & -> & B).
       specialize (B (const_site_guarded _ _ _ L)). unfold frame_inv in FI.
       unfold in_bounds, a_idx, a_len. cbn [fst snd]. lia.
@@ -304,6 +305,12 @@ Proof.
     exact (upval_site_guarded _ _ _ L).
 Qed.
 
+Lemma on_grid_in_bounds_lemma (f : func) (s : st) (w : N) (a : acc) :
+  verify_body f = VOk -> on_grid (f_code f) (s_ip s) = true -> nthN (f_code f) (s_ip s) = Some w ->
+  s_bclen s = len (f_code f) -> frame_inv s ->
+  footprint s w a -> in_bounds a = true.
+Proof. intros V G. exact (grid_in_bounds_lemma f s w a V (on_grid_sound _ _ G)). Qed.
+
 (* ---- call paths that refresh constants_len re-establish the invariant ------------------------- *)
 Lemma refreshing_call_keeps_inv (op kind : N) (caller : st) (callee : func) (b : N) :
   refreshes_clen op kind = true -> frame_inv (enter op kind caller callee b).
@@ -311,46 +318,194 @@ Proof.
   intros R. unfold frame_inv, enter. cbn [s_clen s_nconsts]. rewrite R. lia.
 Qed.
 
-(* ---- witnesses --------------------------------------------------------------------------------- *)
-(* [Jump +2] [CallGlobal r0] [cache word 1] [cache word 2 whose top byte is 77] *)
+(* ---- every call path refreshes constants_len (KF-C04-2 repaired) -------------------------------- *)
+Definition all_calls_refresh : bool :=
+  forallb (fun e : N * N * bool => snd e) call_paths && return_restores_clen.
+
+Lemma all_calls_refresh_true : all_calls_refresh = true.
+Proof. vm_compute. reflexivity. Qed.
+
+Lemma refreshes_always (op kind : N) : refreshes_clen op kind = true.
+Proof.
+  pose proof all_calls_refresh_true as P. unfold all_calls_refresh in P.
+  apply andb_true_iff in P as [P _]. unfold refreshes_clen.
+  apply forallb_forall. intros [[o k] u] Hin.
+  pose proof (proj1 (forallb_forall _ _) P _ Hin) as Hu. cbn [snd] in Hu. subst u.
+  destruct ((o =? op) && (k =? kind)); reflexivity.
+Qed.
+
+Lemma enter_frame_inv (op kind : N) (caller : st) (callee : func) (b : N) :
+  frame_inv (enter op kind caller callee b).
+Proof. exact (refreshing_call_keeps_inv op kind caller callee b (refreshes_always op kind)). Qed.
+
+Lemma resume_is_caller (callee caller : st) : resume callee caller = caller.
+Proof.
+  pose proof all_calls_refresh_true as P. unfold all_calls_refresh in P.
+  apply andb_true_iff in P as [_ P]. unfold resume. rewrite P. reflexivity.
+Qed.
+
+(* ---- control flow of an accepted function never leaves the grid (KF-C04-1 repaired) ------------- *)
+Lemma has_jump_checked (f : func) (ip w : N) :
+  verify_body f = VOk -> grid (f_code f) ip -> nthN (f_code f) ip = Some w -> has_jump (w_op w) = true ->
+  let t := Z.to_N (jump_target ip w) in
+  t <= len (f_code f) /\ (t = len (f_code f) \/ grid (f_code f) t).
+Proof.
+  intros V G Hw HJ.
+  destruct (grid_checked f ip w V G Hw) as (cs & adv & D & F).
+  apply decode_entry in D. unfold has_jump in HJ. rewrite D in HJ.
+  exact (checked_jump (env_of f) ip w cs F HJ).
+Qed.
+
+Lemma succ_on_grid (f : func) (ip t : N) :
+  verify_body f = VOk -> grid (f_code f) ip -> In t (succs (f_code f) ip) ->
+  t < len (f_code f) -> grid (f_code f) t.
+Proof.
+  intros V G Hin Ht. unfold succs in Hin.
+  destruct (nthN (f_code f) ip) as [w|] eqn:Hw; [|destruct Hin].
+  apply in_app_or in Hin as [Hin|Hin].
+  - destruct (has_jump (w_op w)) eqn:HJ; [|destruct Hin].
+    destruct Hin as [<-|[]].
+    destruct (has_jump_checked f ip w V G Hw HJ) as [_ [E|G']]; [lia|exact G'].
+  - destruct (w_op w =? OP_Jump); [destruct Hin|].
+    destruct Hin as [<-|[]]. exact (grid_step _ ip w G Hw).
+Qed.
+
+Lemma reach_grid (f : func) (ip : N) :
+  verify_body f = VOk -> reach (f_code f) ip -> ip < len (f_code f) -> grid (f_code f) ip.
+Proof.
+  intros V R. induction R as [|ip t R IH Hin]; intros Ht; [apply grid_0|].
+  assert (Hip : ip < len (f_code f)).
+  { unfold succs in Hin. destruct (nthN (f_code f) ip) as [w|] eqn:Hw; [exact (nthN_lt _ _ _ Hw)|destruct Hin]. }
+  exact (succ_on_grid f ip t V (IH Hip) Hin Ht).
+Qed.
+
+(* the full statement for one function: every word reachable by its own control flow *)
+Lemma reach_in_bounds_lemma (f : func) (s : st) (w : N) (a : acc) :
+  verify_body f = VOk -> reach (f_code f) (s_ip s) -> nthN (f_code f) (s_ip s) = Some w ->
+  s_bclen s = len (f_code f) -> frame_inv s -> footprint s w a -> in_bounds a = true.
+Proof.
+  intros V R Hw HL FI.
+  exact (grid_in_bounds_lemma f s w a V (reach_grid f _ V R (nthN_lt _ _ _ Hw)) Hw HL FI).
+Qed.
+
+(* ---- the machine: every frame keeps the invariant ------------------------------------------------ *)
+Definition frame_ok (fr : frame) : Prop :=
+  verify_body (fr_fn fr) = VOk /\ s_bclen (fr_st fr) = len (f_code (fr_fn fr)) /\ frame_inv (fr_st fr) /\
+  (s_ip (fr_st fr) < len (f_code (fr_fn fr)) -> grid (f_code (fr_fn fr)) (s_ip (fr_st fr))).
+
+Lemma entry_ok (op kind : N) (caller : st) (callee : func) (b : N) :
+  verify callee = VOk -> frame_ok {| fr_fn := callee; fr_st := enter op kind caller callee b |}.
+Proof.
+  intros V. unfold frame_ok. cbn [fr_fn fr_st].
+  split; [exact (verify_body_of_verify _ V)|]. split; [reflexivity|]. split; [apply enter_frame_inv|].
+  intros _. apply grid_0.
+Qed.
+
+Lemma mstep_keeps_ok (c1 c2 : list frame) : mstep c1 c2 -> Forall frame_ok c1 -> Forall frame_ok c2.
+Proof.
+  intros M F. destruct M as [fr rest t Hin|fr rest r c|fr rest w kind callee b Hw Hc Hnt V|fr rest w kind callee b Hw Ht V|fr caller rest|fr].
+  - inversion F as [|x l (Vb & HL & FI & G) Fr]; subst. constructor; [|exact Fr].
+    unfold frame_ok. cbn [fr_fn fr_st set_ip s_ip s_bclen]. repeat split; try assumption.
+    intros Ht.
+    assert (Hip : s_ip (fr_st fr) < len (f_code (fr_fn fr))).
+    { unfold succs in Hin. destruct (nthN (f_code (fr_fn fr)) (s_ip (fr_st fr))) as [w|] eqn:Hw;
+        [exact (nthN_lt _ _ _ Hw)|destruct Hin]. }
+    exact (succ_on_grid _ _ t Vb (G Hip) Hin Ht).
+  - inversion F as [|x l (Vb & HL & FI & G) Fr]; subst. constructor; [|exact Fr].
+    unfold frame_ok. cbn [fr_fn fr_st set_env s_ip s_bclen]. repeat split; assumption.
+  - inversion F as [|x l (Vb & HL & FI & G) Fr]; subst.
+    constructor; [exact (entry_ok _ _ _ _ _ V)|]. constructor; [|exact Fr].
+    unfold frame_ok. cbn [fr_fn fr_st set_ip s_ip s_bclen]. repeat split; try assumption.
+    intros _. exact (grid_step _ _ w (G (nthN_lt _ _ _ Hw)) Hw).
+  - inversion F as [|x l _ Fr]; subst. constructor; [exact (entry_ok _ _ _ _ _ V)|exact Fr].
+  - inversion F as [|x l _ Fr]; subst. inversion Fr as [|y l' Hc Fr']; subst.
+    constructor; [|exact Fr']. rewrite resume_is_caller. destruct caller as [cf cs]. exact Hc.
+  - constructor.
+Qed.
+
+Lemma init_ok (f : func) (r c : N) : verify f = VOk -> frame_ok {| fr_fn := f; fr_st := init_st f r c |}.
+Proof.
+  intros V. unfold frame_ok, frame_inv. cbn [fr_fn fr_st init_st s_ip s_bclen s_clen s_nconsts].
+  split; [exact (verify_body_of_verify _ V)|]. split; [reflexivity|]. split; [lia|]. intros _. apply grid_0.
+Qed.
+
+Lemma mreach_ok (f : func) (cfg : list frame) : verify f = VOk -> mreach f cfg -> Forall frame_ok cfg.
+Proof.
+  intros V R. induction R as [r c|c1 c2 R IH M].
+  - constructor; [exact (init_ok f r c V)|constructor].
+  - exact (mstep_keeps_ok c1 c2 M IH).
+Qed.
+
+(* FULL STATEMENT over the machine: whatever the accepted entry function calls, returns to, or jumps to,
+   the word the loop fetches next has all its raw accesses inside their buffers *)
+Lemma verified_exec_in_bounds_lemma (f : func) (fr : frame) (rest : list frame) (w : N) (a : acc) :
+  verify f = VOk -> mreach f (fr :: rest) ->
+  nthN (f_code (fr_fn fr)) (s_ip (fr_st fr)) = Some w ->
+  footprint (fr_st fr) w a -> in_bounds a = true.
+Proof.
+  intros V R Hw HF.
+  pose proof (mreach_ok f _ V R) as F. inversion F as [|x l (Vb & HL & FI & G) Fr]; subst.
+  exact (grid_in_bounds_lemma (fr_fn fr) (fr_st fr) w a Vb (G (nthN_lt _ _ _ Hw)) Hw HL FI HF).
+Qed.
+
+(* ---- from_u8 (KF-C04-3 repaired) ------------------------------------------------------------------ *)
+Lemma from_u8_sweep : all_below (fun b => implb (from_u8_accepts b) (is_discriminant b)) 256 0 = true.
+Proof. vm_compute. reflexivity. Qed.
+
+Lemma from_u8_ranges_bytes : forallb (fun r : N * N => snd r <=? 255) from_u8_ranges = true.
+Proof. vm_compute. reflexivity. Qed.
+
+Lemma from_u8_total_lemma (b : N) : from_u8_accepts b = true -> is_discriminant b = true.
+Proof.
+  intros H.
+  assert (b < 256).
+  { unfold from_u8_accepts in H. apply existsb_exists in H as [r [Hr H]].
+    pose proof (proj1 (forallb_forall _ _) from_u8_ranges_bytes _ Hr) as B. cbv beta in B.
+    apply andb_true_iff in H as [_ H]. lia. }
+  pose proof (all_below_spec _ _ _ from_u8_sweep b) as S.
+  assert (implb (from_u8_accepts b) (is_discriminant b) = true) as I by (apply S; lia).
+  rewrite H in I. exact I.
+Qed.
+
+Lemma decode_never_undefined (b : N) : decode b <> DUndefined.
+Proof.
+  unfold decode. destruct (from_u8_accepts b) eqn:A; cbn [negb]; [|discriminate].
+  rewrite (from_u8_total_lemma b A). cbn [negb]. destruct (lookup b vtable) as [[cs adv]|]; discriminate.
+Qed.
+
+Lemma scan_never_undefined (e : venv) (code : list N) : forall fuel i, scan fuel e code i <> VUndefined.
+Proof.
+  induction fuel as [|k IH]; intros i; cbn [scan]; [discriminate|].
+  destruct (nthN code i) as [w|]; [|discriminate].
+  destruct (decode (w_op w)) as [| | |cs adv] eqn:D; try discriminate.
+  - exfalso. exact (decode_never_undefined _ D).
+  - destruct (forallb (check_ok e i w) cs); [apply IH|discriminate].
+Qed.
+
+(* ---- regression facts: the former witnesses on the repaired code --------------------------------- *)
+(* [Jump +2] [CallGlobal r0] [cache word 1] [cache word 2 whose top byte is 77]: was accepted *)
 Definition kf1_fn : func := Func 2 [] 0 [0x12000002; 0x4d000000; 0; 0x4d000000] [].
 Definition kf1_st : st :=
   {| s_ip := 3; s_bclen := 4; s_base := 0; s_regslen := 32768; s_clen := 0; s_nconsts := 0; s_uplen := 0; s_cachelen := 0 |}.
+Lemma kf1_now :
+  verify kf1_fn = VReject /\ on_grid (f_code kf1_fn) 3 = false /\
+  must kf1_st 0x4d000000 = [(S_FETCH, 3, 4)].          (* and even off the grid the cache words are no longer touched *)
+Proof. vm_compute. repeat split; reflexivity. Qed.
 
-Lemma kf1_reach : reach (f_code kf1_fn) 3.
-Proof. apply (reach_step _ 0 3); [apply reach_entry|vm_compute; left; reflexivity]. Qed.
-
-Lemma kf1_facts :
-  verify kf1_fn = VOk /\ on_grid (f_code kf1_fn) 3 = false /\ nthN (f_code kf1_fn) 3 = Some 0x4d000000 /\
-  In (S_CACHE_RD, 5, 4) (must kf1_st 0x4d000000) /\ in_bounds (S_CACHE_RD, 5, 4) = false /\
-  may kf1_st 0x4d000000 (S_PATCH_WR, 4, 4) = true /\ may kf1_st 0x4d000000 (S_PATCH_WR, 5, 4) = true.
-Proof. vm_compute. repeat split; try reflexivity. right; left; reflexivity. Qed.
-
-(* wrapper (6 constants) calls a closure over a 1-constant function whose first word is GetGlobal r0, imm16 = 5 *)
+(* wrapper (6 constants) calls a closure over [GetGlobal r0, b=0 c=5][Return0] with 1 constant: was an overrun *)
 Definition kf2_callee : func := Func 1 [COther] 0 [0x18000005; 0x17000000] [].
 Definition kf2_fn : func :=
   Func 3 [CNested 0; COther; COther; COther; COther; COther] 0 [0x23000000; 0x15010000; 0x17000000] [kf2_callee].
 Definition kf2_caller_st : st :=
   {| s_ip := 1; s_bclen := 3; s_base := 0; s_regslen := 32768; s_clen := 6; s_nconsts := 6; s_uplen := 0; s_cachelen := 0 |}.
+Lemma kf2_now :
+  verify kf2_fn = VOk /\
+  must (enter OP_Call 1 kf2_caller_st kf2_callee 1) 0x18000005 = [(S_FETCH, 0, 2); (S_CONST, 0, 1)] /\
+  s_clen (enter OP_Call 1 kf2_caller_st kf2_callee 1) = 1.
+Proof. vm_compute. repeat split; reflexivity. Qed.
 
-Lemma kf2_facts :
-  verify kf2_fn = VOk /\ In kf2_callee (f_nested kf2_fn) /\ frame_inv kf2_caller_st /\
-  nthN (f_code kf2_fn) (s_ip kf2_caller_st) = Some 0x15010000 /\ w_op 0x15010000 = OP_Call /\
-  In (OP_Call, 1, false) call_paths /\
-  on_grid (f_code kf2_callee) 0 = true /\ nthN (f_code kf2_callee) 0 = Some 0x18000005 /\
-  In (S_CONST, 5, 1) (must (enter OP_Call 1 kf2_caller_st kf2_callee 1) 0x18000005) /\
-  in_bounds (S_CONST, 5, 1) = false.
-Proof.
-  vm_compute. repeat split; try reflexivity; try discriminate.
-  - left; reflexivity.
-  - right; left; reflexivity.
-  - right; left; reflexivity.
-Qed.
-
-Lemma gap_facts :
-  122 <= from_u8_bound /\ is_discriminant 122 = false /\ In 122 gap_bytes /\
-  verify (Func 1 [] 0 [0x7a000000] []) = VUndefined.
-Proof. vm_compute. repeat split; try reflexivity; try discriminate. left; reflexivity. Qed.
+Lemma gap_now : gap_bytes = [] /\ verify (Func 1 [] 0 [0x7a000000] []) = VReject.
+Proof. vm_compute. split; reflexivity. Qed.
 
 (* accepted functions exist and their grid is not trivial: compiler output for
    `let mut s = 0  for i in 0..6 { s = s + i }  println(s)` at -O1 (contains a CallGlobalNative with cache words) *)
@@ -361,3 +516,13 @@ Lemma sample_facts :
   verify sample_fn = VOk /\ on_grid (f_code sample_fn) 12 = true /\ on_grid (f_code sample_fn) 13 = false /\
   on_grid (f_code sample_fn) 15 = true /\ w_op 0x68000101 = OP_CallGlobalNative.
 Proof. vm_compute. repeat split; reflexivity. Qed.
+
+(* the machine really runs: entry, a step to the loop head, the native call word at 12 *)
+Lemma sample_machine :
+  exists cfg, mreach sample_fn cfg /\
+    match cfg with fr :: _ => s_ip (fr_st fr) = 1 /\ fr_fn fr = sample_fn | [] => False end.
+Proof.
+  eexists. split.
+  - eapply mr_step; [apply (mr_init sample_fn 32768 0)|]. apply (ms_next _ _ 1). vm_compute. left. reflexivity.
+  - cbn. split; reflexivity.
+Qed.
